@@ -140,6 +140,12 @@ pub(crate) fn validate_string_length(value: &str, packet_type: PacketType, funct
         return Err(GneissError::new_packet_validation(packet_type, message));
     }
 
+    if value.contains('\0') {
+        let message = format!("{} - {} string field contains a null character", function_name, field_name);
+        error!("{}", message);
+        return Err(GneissError::new_packet_validation(packet_type, message));
+    }
+
     Ok(())
 }
 
@@ -147,6 +153,12 @@ pub(crate) fn validate_optional_string_length(optional_string: &Option<String>, 
     if let Some(value) = &optional_string {
         if value.len() > MAXIMUM_STRING_PROPERTY_LENGTH {
             let message = format!("{} - {} string field too long", function_name, field_name);
+            error!("{}", message);
+            return Err(GneissError::new_packet_validation(packet_type, message));
+        }
+
+        if value.contains('\0') {
+            let message = format!("{} - {} string field contains a null character", function_name, field_name);
             error!("{}", message);
             return Err(GneissError::new_packet_validation(packet_type, message));
         }
